@@ -499,7 +499,10 @@ class FullCaseCitation(CaseCitation, FullCitation):
 
         Returns: None
         """
-        if self.full_span_start == preceding.full_span_start:
+        if (
+            self.full_span_start is not None
+            and self.full_span_start == preceding.full_span_start
+        ):
             # if parallel get plaintiff/defendant data from
             # the earlier citation, since it won't be on the
             # parallel one.
